@@ -220,6 +220,113 @@ fn argv_dump() {
     }
 }
 
+/// Scripted pipeline stage (children of the `pipe` engine).  Behaviours:
+///   T<tag>:<code>:<errlines>  filter: every input line gets "|<tag>" appended; the first <errlines> lines also
+///                             produce "E<tag><lineno>" on stderr; exits with <code> at end of input
+///   G<count>:<code>           generator: ignores stdin, writes <count> lines "L<i>", exits with <code>
+///   Y / YE                    unbounded writer to stdout / stderr (ends only when the pipe breaks)
+///   C                         cat;   S  sink (reads to end of input, writes nothing);   X<code>  exits at once
+/// A failed write ends the stage with status 141 (Rust ignores SIGPIPE).
+fn stage_main(beh: &str) -> ! {
+    use std::io::{BufRead, Write};
+    fn die() -> ! {
+        std::process::exit(141)
+    }
+    let stdin = std::io::stdin();
+    let stdout = std::io::stdout();
+    let mut out = std::io::BufWriter::with_capacity(1 << 16, stdout.lock());
+    let code_of = |s: &str| -> i32 { s.parse().unwrap_or(0) };
+    if let Some(rest) = beh.strip_prefix('T') {
+        let parts: Vec<&str> = rest.split(':').collect();
+        let tag = parts[0];
+        let code = code_of(parts.get(1).unwrap_or(&"0"));
+        let errlines: usize = parts.get(2).and_then(|s| s.parse().ok()).unwrap_or(0);
+        let mut lineno = 0usize;
+        let mut buf = Vec::new();
+        let mut inp = stdin.lock();
+        loop {
+            buf.clear();
+            match inp.read_until(b'\n', &mut buf) {
+                Ok(0) => break,
+                Ok(_) => {}
+                Err(_) => std::process::exit(99),
+            }
+            if buf.last() == Some(&b'\n') {
+                buf.pop();
+            }
+            buf.extend_from_slice(b"|");
+            buf.extend_from_slice(tag.as_bytes());
+            buf.push(b'\n');
+            if out.write_all(&buf).is_err() {
+                die();
+            }
+            if lineno < errlines {
+                let msg = format!("E{}{}\n", tag, lineno);
+                if std::io::stderr().write_all(msg.as_bytes()).is_err() {
+                    die();
+                }
+            }
+            lineno += 1;
+        }
+        if out.flush().is_err() {
+            die();
+        }
+        std::process::exit(code);
+    }
+    if let Some(rest) = beh.strip_prefix('G') {
+        let parts: Vec<&str> = rest.split(':').collect();
+        let count: usize = parts[0].parse().unwrap_or(0);
+        let code = code_of(parts.get(1).unwrap_or(&"0"));
+        for i in 0..count {
+            if writeln!(out, "L{}", i).is_err() {
+                die();
+            }
+        }
+        if out.flush().is_err() {
+            die();
+        }
+        std::process::exit(code);
+    }
+    match beh {
+        "Y" => loop {
+            if out.write_all(b"yyyyyyyyyyyyyyyyyyyyyyyyyyyyyyyyyyyyyyyyyyyyyyyyyyyyyyyyyyyyyyy\n").is_err() {
+                die();
+            }
+        },
+        "YE" => {
+            let err = std::io::stderr();
+            let mut e = err.lock();
+            loop {
+                if e.write_all(b"eeeeeeeeeeeeeeeeeeeeeeeeeeeeeeeeeeeeeeeeeeeeeeeeeeeeeeeeeeeeeee\n").is_err() {
+                    die();
+                }
+            }
+        }
+        "C" => {
+            let mut inp = stdin.lock();
+            match std::io::copy(&mut inp, &mut out) {
+                Ok(_) => {}
+                Err(_) => die(),
+            }
+            if out.flush().is_err() {
+                die();
+            }
+            std::process::exit(0);
+        }
+        "S" => {
+            let mut inp = stdin.lock();
+            let _ = std::io::copy(&mut inp, &mut std::io::sink());
+            std::process::exit(0);
+        }
+        _ => {
+            if let Some(c) = beh.strip_prefix('X') {
+                std::process::exit(code_of(c));
+            }
+            std::process::exit(98);
+        }
+    }
+}
+
 fn main() {
     let a0 = std::env::args().next().unwrap_or_default();
     if !a0.ends_with("hplain") {
@@ -230,6 +337,7 @@ fn main() {
     match mode.as_str() {
         "sh" => engine_sh(),
         "shreal" => engine_shreal(),
+        "stage" => stage_main(&std::env::args().nth(2).unwrap_or_default()),
         _ => {
             eprintln!("usage: hplain sh|shreal");
             std::process::exit(2);
